@@ -323,6 +323,29 @@ func cmdDepth(args []string) {
 			}
 		}
 	}
+	// unusual symbol and file names
+	for _, tc := range []struct {
+		id   string
+		mk   func() error
+		want string
+	}{
+		{"generic-method", func() error { return (&c16Box[int]{}).fail() }, "c16line.go:11 fail true"},
+		{"generic-closure", func() error { return c16Validate("x") }, "c16line.go:15 func1 true"},
+		{"path-with-space", c16SpacedPath, "ledger.go:101 c16SpacedPath true"},
+	} {
+		evals++
+		e := tc.mk()
+		cur := e
+		for hop := 0; hop <= 2; hop++ {
+			if hop > 0 {
+				cur = transferOnce(cur, nil)
+			}
+			if got := src(cur); got != tc.want {
+				fail("source-"+tc.id, fmt.Sprintf("GetOneLineSource after %d hop(s) is %q, expected %q", hop, got, tc.want), "")
+				break
+			}
+		}
+	}
 	names := map[string]bool{}
 	for _, e := range entries {
 		names[e.name] = true
